@@ -42,6 +42,17 @@ third-party queue, `reset(lvalue)`, a yielding task on a PU being suspended). Th
 (lost wake-up in `stop_locked`, deadlock of notified timed waits on OS threads, `finalize()` on a suspended runtime throws -
 observation). After these extensions every seed of the four rounds is caught (C03c needed statically typed pipelines in
 the E0 tie: follow-up C03s).
+Round 5 (`seeded/<id>e`): 13 of 20 at the first attempt (C08e only as a broken correspondence; a directed case family now
+gives the failing input). The seven misses: C01e (a back-end adapter picking the wrong end - the scheduler model abstracts the
+back-ends as bags; the bag assumption is now checked on the real adapters inside `./check C01`), C02e (wake-up with restart
+state `abort`: no program interrupted a blocked task that carries on afterwards), C04e (moving the mutex object), C13e (the
+directed run accepted any `pika::exception` as the interruption), C17e (a batch overload of the third-party queue that pika
+never calls - covered by a values-only tier because the header is an anchor of the property), C19e (pool suspend with PUs
+already asleep, and a hang that gave no verdict because a blocked worker's CPU clock never advances), C20e (arguments owned by
+the adaptor: the release of the stored arguments was not an event of the model - now `Ev.rel` with three new theorems). After
+the extensions `tools/regress_seeds.sh` re-ran all twenty round-5 seeds against the final machinery in an isolated copy
+(`seeded/<id>e/regress.log`): twenty VIOLATION exits, each with a concrete failing input; the same script re-runs the older
+seeds as far as the time allows (`build/regress-summary.txt` is not committed, the per-seed `regress.log` files are).
 
 Generated by `tools/seed_table.py` from `seeded/*/meta.json`.
 
